@@ -30,6 +30,9 @@ var (
 		{oPat(PatSpec{Scheme: "https", Subs: true, Host: "example.com"}, false, false), oPat(PatSpec{Scheme: "https", Host: "a.example.com", Port: 8443}, false, false), oPat(PatSpec{Scheme: "https", Host: "example.com"}, false, false)},
 		{oStarAtom, oPat(PatSpec{Scheme: "https", Host: "example.com"}, false, false)},
 		{oPat(PatSpec{Scheme: "http", Host: "localhost", Port: portAny}, false, false), oPat(PatSpec{Scheme: "http", Host: "::1", IP6: true, Port: 9090}, false, false)},
+		// one host under several schemes and ports, greater scheme first / last
+		{oPat(PatSpec{Scheme: "https", Host: "localhost", Port: 8443}, false, false), oPat(PatSpec{Scheme: "http", Host: "localhost", Port: 3000}, false, false), oPat(PatSpec{Scheme: "https", Host: "example.com"}, false, false)},
+		{oPat(PatSpec{Scheme: "http", Host: "localhost", Port: 3000}, false, false), oPat(PatSpec{Scheme: "https", Host: "localhost"}, false, false), oPat(PatSpec{Scheme: "connector", Host: "localhost", Port: portAny}, false, false)},
 	}
 	prodMethods = [][]MAtom{
 		nil, {mStarAtom}, {mv("PUT")}, {mv("put")}, {mv("patch")}, {mv("PATCH"), mv("DELETE")}, {mStarAtom, mv("PUT")},
@@ -93,6 +96,11 @@ var (
 		{Scheme: "https", Host: "example.org"},
 		{Scheme: "http", Host: "::1", IP6: true, Port: 9091},
 		{Scheme: "https", Host: "example.com."},
+		{Scheme: "https", Host: "localhost", Port: 8443},
+		{Scheme: "https", Host: "localhost", Port: 3000},
+		{Scheme: "http", Host: "localhost", Port: 8443},
+		{Scheme: "https", Host: "localhost"},
+		{Scheme: "connector", Host: "localhost", Port: 3000},
 	}
 	c02Methods     = []string{"GET", "HEAD", "POST", "PUT", "put", "Put", "patch", "PATCH", "DELETE", "delete", "OPTIONS", "CHICKEN", "chicken", "get"}
 	c02HeaderNames = []string{"authorization", "content-type", "x-listed-1", "x-listed-2", "x-unlisted"}
